@@ -136,12 +136,19 @@ def check_mesh_topology(ctx, ds, cv, out, info, kept, supply, start_index):
         ff_old = rows(old_topo.face_face_array)
         ctx.check([sorted(r) for r in rows(topo.face_face_array)] == [sorted(fmap[g] for g in ff_old[f] if g in fmap) for f in kept],
                   'face-face connectivity lists exactly the surviving neighbours')
-    # derived tables of the output agree with its own face-node table
-    en2 = [frozenset(e) for e in rows(topo.edge_node_array)]
-    fe2 = rows(topo.face_edge_array)
-    fn2 = rows(topo.face_node_array)
-    ctx.check(all([en2[e] for e in fe2[k]] == [frozenset(p) for p in zip(fn2[k], fn2[k][1:] + fn2[k][:1])] for k in range(len(fn2))),
-              'the connectivity variables of the output agree with each other')
+    if 'edge_node' in supply or not ({'face_edge', 'edge_face'} & set(supply)):
+        # derived tables of the output agree with its own face-node table
+        en2 = [frozenset(e) for e in rows(topo.edge_node_array)]
+        fe2 = rows(topo.face_edge_array)
+        fn2 = rows(topo.face_node_array)
+        ctx.check(all([en2[e] for e in fe2[k]] == [frozenset(p) for p in zip(fn2[k], fn2[k][1:] + fn2[k][:1])] for k in range(len(fn2))),
+                  'the connectivity variables of the output agree with each other')
+    elif {'face_edge', 'edge_face'} <= set(supply):
+        # no edge-node table in the file: the edge numbers live in face_edge / edge_face only, which must agree with
+        # each other (edge e lists face f exactly when face f lists edge e)
+        fe2, ef2 = rows(topo.face_edge_array), rows(topo.edge_face_array)
+        ctx.check(all((e in fe2[f]) == (f in ef2[e]) for f in range(len(fe2)) for e in range(len(ef2))),
+                  'the connectivity variables of the output agree with each other')
 
 
 def c08_ring(p):
